@@ -45,3 +45,21 @@ package bus
 //@   requires arg1 != nil
 //@   ensures busCoinReserve(recv, arg0) == old(busCoinReserve(recv, arg0)) - old(arg1.val)
 //@   modifies busCoinReserve(recv, arg0), ledgerDelta, busCache
+
+//@ # frozen funds seen through the bus: frozenSum(ff, h, a, coin) = total value frozen for owner a in coin until height h
+//@ # through this interface (the implementation in package frozenfunds appends an unbond item of exactly that value)
+//@ ghost frozenSum(ff FrozenFunds, h int, a types.Address, coin types.CoinID) int
+//@ func iface FrozenFunds.AddFrozenFund
+//@   requires arg5 != nil
+//@   ensures frozenSum(recv, arg0, arg1, arg4) == old(frozenSum(recv, arg0, arg1, arg4)) + old(arg5.val)
+//@   modifies frozenSum(recv, arg0, arg1, arg4), ledgerDelta, busCache
+
+//@ # candidates seen through the bus: jail height and status of the candidate with a given consensus address / public key
+//@ ghost busJailedUntil(c Candidates, a types.TmAddress) int
+//@ ghost busOffline(c Candidates, pk types.Pubkey) bool
+//@ func iface Candidates.Punish
+//@   ensures busJailedUntil(recv, arg1) == mod(arg0 + (types.CurrentChainID == types.ChainTestnet ? 354 : 17280), 18446744073709551616)
+//@   modifies busJailedUntil(recv, arg1), busCache, eventLog
+//@ func iface Candidates.SetOffline
+//@   ensures busOffline(recv, arg0)
+//@   modifies busOffline(recv, arg0), busCache
